@@ -102,8 +102,9 @@ type histStats struct {
 	Histories int64 `json:"histories"`
 	Events    int64 `json:"events"`
 	Expired   bool  `json:"expired,omitempty"`
-	Next      int   `json:"next"` // position after the last history that was run
-	Done      bool  `json:"done"` // the shard was enumerated to its end
+	Rejected  int64 `json:"rejected,omitempty"` // re-execution: specs the planner rejects (error or panic on the calling goroutine)
+	Next      int   `json:"next"`               // position after the last history that was run
+	Done      bool  `json:"done"`               // the shard was enumerated to its end
 }
 
 // workerHist enumerates positions [start, end) of one shard (position p = history number shard + p*nshards in
@@ -202,6 +203,9 @@ func workerReexec(set []Spec, shard, nshards int, w *bufio.Writer) {
 			mm, ev := reexecCase(s, adv, 3)
 			st.Histories++
 			st.Events += int64(ev)
+			if ev == 0 && adv == "second" {
+				st.Rejected++
+			}
 			for _, m := range mm {
 				enc.Encode(m)
 			}
@@ -427,21 +431,31 @@ func withStructure(got, want string) (class, what string) {
 					fmt.Sprintf("WITH %s is defined %d times in the re-executed statement", a, len(gb[a]))
 			}
 		}
-		for a, w := range wb {
-			ref := regexp.MustCompile(`(FROM|IN|IN \(|JOIN) ` + regexp.QuoteMeta(a) + `\b`).MatchString(gs[i])
-			if !ref {
-				continue
+		// a WITH of the fresh statement without counterpart (same body up to alias counters) in the re-executed
+		// one, while the re-executed statement has fewer definitions: a definition was dropped and its
+		// references now read whatever else carries that alias
+		strip := func(b string) string { return regexp.MustCompile(`_\d+\b`).ReplaceAllString(b, "_#") }
+		gotBodies := map[string]int{}
+		ng, nw := 0, 0
+		for _, bs := range gb {
+			for _, b := range bs {
+				gotBodies[strip(b)]++
+				ng++
 			}
-			g := gb[a]
-			if len(g) == 0 {
-				return "reexec_with_alias_referenced_but_not_defined_" + sanitize(regexp.MustCompile(`_?\d+$`).ReplaceAllString(a, "")),
-					fmt.Sprintf("the re-executed statement reads WITH %s which it does not define (the fresh plan defines it)", a)
+		}
+		wa, _ := cteDefs(ws[i])
+		for _, bs := range wb {
+			nw += len(bs)
+		}
+		if ng < nw {
+			for _, a := range wa {
+				for _, b := range wb[a] {
+					if gotBodies[strip(b)] == 0 {
+						return "reexec_with_definition_dropped_" + sanitize(regexp.MustCompile(`_?\d+$`).ReplaceAllString(a, "")),
+							fmt.Sprintf("the fresh statement defines WITH %s, the re-executed statement has no such definition (%d WITHs instead of %d) and its references read another sub-select that carries the alias (Select.AddWith keeps the first WITH of an alias and silently drops a later one)", a, ng, nw)
+					}
+				}
 			}
-			if len(w) == len(g) {
-				continue
-			}
-			return "reexec_with_alias_bound_to_another_select_" + sanitize(regexp.MustCompile(`_?\d+$`).ReplaceAllString(a, "")),
-				fmt.Sprintf("WITH %s has %d definition(s) in the re-executed statement and %d in the fresh one: a reference now reads a different sub-select (Select.AddWith keeps the first WITH of an alias and silently drops the second)", a, len(g), len(w))
 		}
 	}
 	return "", ""
@@ -713,7 +727,7 @@ func main() {
 		return
 	}
 	r := ev.Start("C14", "model_checking", 78*time.Second, 17*time.Minute)
-	r.Rule = "state = everything planned/executed so far in one process; events = plan(q) and exec(plan_i, window); (a) every ordered history of <= D planning events from the query set under 3 schedules (plan+exec immediately / plan all then exec in order / exec in reverse order), each execution's SQL compared byte-for-byte with the SQL of the same spec planned first in a fresh process (two fresh processes per spec must agree); (b) every spec x advance in {1s, 13h (crosses midnight)} x k in {1,2,3}: the i-th execution of one plan object compared with the first execution of a fresh plan under the same window"
+	r.Rule = "state = everything planned/executed so far in one process; events = plan(q) and exec(plan_i, window); (a) every ordered history of <= D planning events from the query set under 3 schedules (plan+exec immediately / plan all then exec in order / exec in reverse order), each execution's SQL compared byte-for-byte with the SQL of the same spec planned first in a fresh process (two fresh processes per spec must agree); (b) every spec of the set plus every sequence of <= 3 LogQL pipeline stage kinds (11 kinds; <= 2 inside count_over_time) x advance in {1s, 13h (crosses midnight)}: executions 1..3 of one plan object, each with a new PlannerContext and sql.Ctx as Tail creates per tick, compared with the first execution of a fresh plan under the same window; differing texts are explained, checked for dropped/duplicated/self-referencing WITH definitions and executed on chsim"
 	r.Assumptions = []string{
 		"the database seam is a scripted database/sql driver: SQL is observed as the statement text handed to ISqlxDB.QueryCtx (or rendered with ISelect.String for the planners whose caller renders it)",
 		"PlannerContext fields are those QueryRange/Tail/SearchTraceQL/Values/Series/prof.plannerCtx set; VersionInfo is {v3:0,v5:0}",
@@ -792,7 +806,7 @@ func main() {
 	// new sql.Ctx, as Tail does on every tick.
 	rt0 := time.Now()
 	reSet := append(append([]Spec(nil), all...), pipelineSpecs()...)
-	reCases := int64(0)
+	reCases, reRejected := int64(0), int64(0)
 	benign := map[string]int{}
 	chsimVerdicts := map[string]int{}
 	var reMismatches []Mismatch
@@ -810,6 +824,7 @@ func main() {
 				defer mu.Unlock()
 				if err := parseLines(out, func(m Mismatch) { reMismatches = append(reMismatches, m) }, func(s histStats) {
 					reCases += s.Histories
+					reRejected += s.Rejected
 					r.States += s.Histories
 					r.Transitions += s.Events
 					r.TracesValidated += s.Events
@@ -857,6 +872,7 @@ func main() {
 	}
 	r.Extra["reexec_specs"] = len(reSet)
 	r.Extra["reexec_cases"] = reCases
+	r.Extra["reexec_specs_rejected_by_planner"] = reRejected
 	r.Extra["reexec_wall_s"] = time.Since(rt0).Seconds()
 	r.Extra["reexec_textual_differences_by_class"] = perClass
 	r.Extra["reexec_textual_differences_judged_same_meaning"] = benign
